@@ -321,7 +321,13 @@ outerReadLoop:
 		}
 
 		closing := make(chan bool)
+		// leaving is closed when the loop below is left: the routine reading
+		// from the client then stops forwarding.
+		leaving := make(chan struct{})
 		go func() {
+			// This routine is the only one that sends to clientInputs once
+			// the stream is set up, so it is the one that closes it.
+			defer close(clientInputs)
 			for {
 				// Listen for incoming messages to know if the client wants to
 				// close the stream. If this is an error, we assume the client
@@ -332,21 +338,24 @@ outerReadLoop:
 					close(closing)
 					return
 				}
-				clientInputs <- buf
+				select {
+				case clientInputs <- buf:
+				case <-leaving:
+					return
+				}
 			}
 		}()
 
 		for {
 			select {
 			case <-closing:
-				close(clientInputs)
 				break outerReadLoop
 			case reply, ok := <-outChan:
 				if !ok {
 					ws.WriteControl(websocket.CloseMessage,
 						websocket.FormatCloseMessage(websocket.CloseNormalClosure, "service finished streaming"),
 						time.Now().Add(time.Millisecond*500))
-					close(clientInputs)
+					close(leaving)
 					return
 				}
 				tx += len(reply)
@@ -355,7 +364,7 @@ outerReadLoop:
 				if err != nil {
 					log.Error(xerrors.Errorf("failed to set the write "+
 						"deadline in the streaming loop: %v", err))
-					close(clientInputs)
+					close(leaving)
 					break outerReadLoop
 				}
 
@@ -363,7 +372,7 @@ outerReadLoop:
 				if err != nil {
 					log.Error(xerrors.Errorf("failed to write next message "+
 						"in the streaming loop: %v", err))
-					close(clientInputs)
+					close(leaving)
 					break outerReadLoop
 				}
 			}
